@@ -145,6 +145,9 @@ def _ppset(rng):
                  for _ in range(rng.randint(1, 3))]
         init = scen.rand_state(rng, InitialState, 0, uncertain=rng.random() < 0.3)
         pps.append(PlanningProblem(900 + i, init, GoalRegion(goals)))
+    if len(pps) >= 2 and rng.random() < 0.4:
+        # two vehicles with the same destination: two goal regions (lists of their own) holding the SAME goal state
+        pps[1].goal = GoalRegion(list(pps[0].goal.state_list))
     return PlanningProblemSet(pps)
 
 
